@@ -7,6 +7,7 @@ type Tables struct {
 
 func extractRest(p *pkgInfo, repo string, t *Tables) {
 	thePkg = p
+	theRepo = repo
 	t.Codes = codeTables(p)
 	fd := funcDictTables(p)
 	for _, d := range dictTables(p) {
@@ -19,9 +20,12 @@ func extractRest(p *pkgInfo, repo string, t *Tables) {
 
 
 var thePkg *pkgInfo
+var theRepo string
 
 func emitRest(dir string, t *Tables) {
 	emitSplit(dir, thePkg)
+	emitEffects(dir, thePkg)
+	emitSchema(dir, thePkg, theRepo)
 	emitRules(dir, t)
 	emitCp037(dir)
 }
